@@ -215,6 +215,18 @@ class CompMixin:
             return [(st, r)]
         # symbolic: a fresh list whose elements are described by a lazy universal
         src = self.comp_source(c, st)
+        if src[0] == "static":
+            # a static source with a filter that depends on symbols: each element is included under its own condition
+            parts = []
+            for x in src[1]:
+                cond, v = self.comp_elem_for(c, st, x)
+                cs = z3.simplify(cond)
+                if z3.is_false(cs):
+                    continue
+                u = z3.Unit(box(self.materialize(v, st)))
+                parts.append(u if z3.is_true(cs) else z3.If(cond, u, z3.Empty(SeqV)))
+            seq = z3.Concat(*parts) if len(parts) > 1 else (parts[0] if parts else z3.Empty(SeqV))
+            return [(st, vref(st.new_list(seq), cls="list"))]
         e, env, mod, g = self.comp_parts(c)
         raising = self.comp_raising_paths(c, st, src, node)
         if raising:
